@@ -3,15 +3,15 @@ import json
 import random
 
 from vlib import core, pipeline as P, diffrun
-from vgen import gen as G, gen2 as G2, emit as E, xform as X, types as T
+from vgen import gen as G, gen2 as G2, emit as E, xform as X, types as T, macros as M
 
 LEVEL = 'exploration'
 
 
 def sizes(ctx):
     if ctx.tier == 'quick':
-        return dict(cases=20, pure_cases=8, enum_cases=16, inputs=10)
-    return dict(cases=200, pure_cases=80, enum_cases=160, inputs=40)
+        return dict(cases=20, pure_cases=8, enum_cases=16, macro_cases=32, inputs=10)
+    return dict(cases=200, pure_cases=80, enum_cases=160, macro_cases=160, inputs=40)
 
 
 BIG = lambda v: v * 1000003 + 17                      # small ints -> large sparse i64
@@ -56,11 +56,44 @@ def make_variants(rng, prog, pure):
     return vs
 
 
+def macro_cases(ctx, sz):
+    """programs with in-program macros: the names of macro-local identifiers and of rule variables are renamed consistently
+    (per macro / per rule) into a pool with adversarial spellings (x, x1, x11, ...); the reference is that of the independent expansion"""
+    cases = []
+    tries = 0
+    while len(cases) < sz['macro_cases'] and tries < sz['macro_cases'] * 30:
+        tries += 1
+        rng = random.Random(ctx.rng.getrandbits(48))
+        dom = rng.choice([3, 4, 6])
+        g = M.gen_screened_program(rng, dom)
+        if g is None:
+            continue
+        prog, exp, input_rels = g
+        vs = [E.Variant('base', prog, 'ascent')]
+        texts = {prog.text()}
+        for i in range(4):
+            rp = M.rename_program(prog, rng)
+            if rp.text() not in texts:
+                texts.add(rp.text())
+                vs.append(E.Variant('mrvars%d' % i, rp, 'ascent_par' if i == 3 else 'ascent'))
+        case = P.Case('m%d' % len(cases), exp, vs, meta={'kind': 'macro', 'variants': ['base'] + ['macro locals and rule variables renamed'] * (len(vs) - 1)})
+        for ii in range(sz['inputs']):
+            rows = M.gen_screened_input(rng, exp, input_rels, dom)
+            for v in vs:
+                vrows = list(rows)
+                if v.name != 'base':
+                    rng.shuffle(vrows)
+                case.jobs.append(P.Job('%s_i%d_%s' % (case.name, ii, v.name), case, v, vrows, meta={'expect': [rows]}))
+        cases.append(case)
+    return cases
+
+
 def gen_cases(ctx):
     sz = sizes(ctx)
     cases = []
     n = 0
     total = sz['cases'] + sz['pure_cases'] + sz['enum_cases']
+    cases += macro_cases(ctx, sz)
     while n < total:
         rng = random.Random(ctx.rng.getrandbits(48))
         pure = sz['cases'] <= n < sz['cases'] + sz['pure_cases']
@@ -109,7 +142,7 @@ def run(ctx, only=None):
         cases = [c for c in cases if c.name == only]
     ctx.rule = ('each case = one logical program in 8-11 syntactic variants (rules / declarations / head clauses / independent body items permuted, first two clauses '
                 'swapped, variables renamed, relations renamed, all at once; for programs without interpreted functions also constants mapped injectively to sparse i64 and '
-                'to String with the column type changed) x inputs (each variant gets its own shuffle of the input vectors). Oracle: every variant, mapped back, equals the '
+                'to String with the column type changed; for programs with in-program macros the macro-local identifiers and rule variables renamed into a pool of adversarial spellings x, x1, x11, ...) x inputs (each variant gets its own shuffle of the input vectors). Oracle: every variant, mapped back, equals the '
                 'reference of the base program (hence all variants are equal). non-trivial = reference non-trivial; distinct = distinct (variant text, input)')
     ctx.assumptions = ['reference evaluator', 'independence of permuted body items is decided on the AST: a permutation is used only if the rule stays well-scoped',
                        'renaming pools exclude identifiers reserved by generated code (leading/trailing underscore, cl1_val, tuple, ...), as the property allows']
